@@ -25,7 +25,9 @@ SCRIPT_HEADER = ("from onnxscript import script\n"
 SCRIPT_STRATA = [
     "straight", "straight_ops", "literals", "multi_output", "if", "if_nested", "for_tensor_n", "for_literal_n", "for_uses_index",
     "while", "for_break", "if_in_for", "for_in_if", "for_in_for", "while_in_if", "if_in_while", "two_loops", "if_two_outputs",
-    "calls_function", "attr_param", "attr_param_in_control_flow", "loop_shifted_state",
+    "calls_function", "attr_param", "attr_param_in_control_flow",
+    # one stratum per form (a form drawn at random made the catch of seeded change C13-3 depend on VERIF_SEED)
+    "loop_shifted_state:fib_for", "loop_shifted_state:fib_for_n", "loop_shifted_state:delta_for", "loop_shifted_state:fib_while",
 ]
 
 _UN = ["op.Relu({a})", "op.Neg({a})", "op.Abs({a})", "op.Sigmoid({a})", "op.Tanh({a})", "op.Identity({a})",
@@ -135,7 +137,7 @@ class ScriptGen:
 def script_program(stratum, rnd):
     """-> dict(source=str, name=str, inputs=[(name, 'FLOAT[3]'|'INT64')], function_only=bool, attrs={name: value})"""
     g = ScriptGen(rnd)
-    name = f"prog_{stratum}"
+    name = "prog_" + stratum.replace(":", "_")
     params = [("x", "FLOAT[3]"), ("y", "FLOAT[3]")]
     pre, pool = g.straight(["x", "y"], rnd.randint(1, 2), "    ")
     lines = list(pre)
@@ -235,10 +237,10 @@ def script_program(stratum, rnd):
             lines += ["    for i in range(2):", "        acc = op.LeakyRelu(acc, alpha=alpha) + 1.0"]
         lines.append("    acc = op.Cast(op.Cast(acc, to=7) + k, to=1)")
         lines.append(g.update(acc, pool, ind))
-    elif stratum == "loop_shifted_state":
+    elif stratum.startswith("loop_shifted_state"):
         # a body that reads a loop-carried value AFTER the node that computes its next value (two shifted state variables,
         # or old-vs-new difference): ONNX bodies hand all next values over at the end of the iteration, Python assigns in order
-        form = rnd.choice(["fib_for", "fib_for_n", "delta_for", "fib_while"])
+        form = stratum.split(":", 1)[1] if ":" in stratum else rnd.choice(["fib_for", "fib_for_n", "delta_for", "fib_while"])
         lines.append(f"    prev = op.Identity({rnd.choice(pool)})")
         if form in ("fib_for", "fib_for_n"):
             if form == "fib_for_n":
